@@ -58,6 +58,14 @@ func InspectSymbolContent(name string) string {
 			break
 		}
 		char, bytes := utf8.DecodeRuneInString(str)
+		if char == utf8.RuneError && bytes == 1 {
+			// invalid UTF-8 byte: the lexer reads `\xNN` back as this raw byte
+			fmt.Fprintf(&result, `\x%02x`, str[0])
+			quotes = true
+			firstLetter = false
+			str = str[bytes:]
+			continue
+		}
 		str = str[bytes:]
 		switch char {
 		case '\\':
